@@ -611,7 +611,10 @@ def c20_scenarios(tier, seed):
         # the log path differs per sandbox: expected command text is completed after the run (placeholder kept here)
         steps = [{"cwd": "proj", "argv": req + ["--json"], "env": {}}, {"cwd": "proj", "argv": req + ["--json"], "env": {}}, {"cwd": "proj", "argv": req + ["--quiet"], "env": {}},
                  {"cwd": "proj", "argv": ["--show"], "env": {}}, {"cwd": "proj", "argv": ["--vars"], "env": {}}, {"cwd": "proj", "argv": [], "env": {}},
-                 {"cwd": "proj", "argv": ["--json"], "env": {}}, {"cwd": "proj", "argv": req + ["--json", "--force"], "env": {}}]
+                 {"cwd": "proj", "argv": ["--json"], "env": {}}, {"cwd": "proj", "argv": req + ["--json", "--force"], "env": {}},
+                 # the listings are what they are whatever else is on the command line
+                 {"cwd": "proj", "argv": ["--show", "--json"], "env": {}}, {"cwd": "proj", "argv": ["--vars", "--json"], "env": {}},
+                 {"cwd": "proj", "argv": ["--show", "--force"], "env": {}}]
         scen.append({"id": len(scen) + 1, "files": files, "steps": steps})
         dclo, stack = [], (["default"] if "default" in names else [])
         while stack:
@@ -620,7 +623,7 @@ def c20_scenarios(tier, seed):
                 dclo.append(x)
                 stack += [d for t in tasks if t["name"] == x for d in t["deps"]]
         meta.append({"tasks": tasks, "vars": vars_, "req": req, "closure": clo, "dclosure": dclo,
-                     "modes": ["json", "json", "quiet", "show", "vars", "noargs", "json-noargs", "json"], "argvs": [st["argv"] for st in steps]})
+                     "modes": ["json", "json", "quiet", "show", "vars", "noargs", "json-noargs", "json", "show", "vars", "show"], "argvs": [st["argv"] for st in steps]})
     return scen, meta
 
 
